@@ -132,7 +132,15 @@ def handle (line : String) : String :=
       else if res = ["panic"] then s!"PROP-FAIL class=selector-panic text={hexOf text}"
       else
         let m := stdParseSelector text
-        if renderSelRes m ≠ res then s!"MODEL-DIFF selector parse text={hexOf text} model={sp (renderSelRes m)} impl={sp res}"
+        -- ORACLE (documented selector syntax, `Props/C14`: keys are tags in an accepted text form or dictionary
+        -- keywords): a text of the syntax must be accepted, any other text rejected
+        let mOk : Bool := match m with | .ok _ => true | _ => false
+        let mErr : Bool := match m with | .err _ => true | _ => false
+        if res == ["err"] && mOk then
+          s!"PROP-FAIL class=selector-syntax-rejected text={hexOf text} a selector whose keys are tags in an accepted form / dictionary keywords is refused; expected {sp (renderSelRes m)}"
+        else if res.head? == some "ok" && mErr then
+          s!"PROP-FAIL class=selector-accepts-malformed text={hexOf text} impl={sp res}"
+        else if renderSelRes m ≠ res then s!"MODEL-DIFF selector parse text={hexOf text} model={sp (renderSelRes m)} impl={sp res}"
         else if text.isEmpty then "ok trivial-seltext-empty"
         else s!"ok seltext-{selErrName m}"
     | none => "BAD-LINE"
